@@ -1,6 +1,8 @@
 import Firebolt.Model.Producer
 import Firebolt.Generated.Source
 import Firebolt.Expected.Source
+import Firebolt.Generated.Closure
+import Firebolt.Expected.Closure
 /-!
 # C15 — Kafka producer sink and error reports: one faithful record per event
 Theorems about `Model/Producer.lean` (decision logic stated outright), for all payloads, topics and errors.
@@ -74,5 +76,9 @@ theorem source_kpSetup : GeneratedSrc.kpSetup = ExpectedSrc.kpSetup := by rfl
 theorem source_kpStartEventsReceiver : GeneratedSrc.kpStartEventsReceiver = ExpectedSrc.kpStartEventsReceiver := by rfl
 theorem source_kpStop : GeneratedSrc.kpStop = ExpectedSrc.kpStop := by rfl
 theorem source_kpShutdown : GeneratedSrc.kpShutdown = ExpectedSrc.kpShutdown := by rfl
+
+/-! ### influence closure: the pinned functions, and every function of the repository that writes a struct field or package
+variable they read, are unchanged (digests regenerated from /repo on every run; a difference names the functions) -/
+theorem closure_unchanged : GeneratedClo.C15 = ExpectedClo.C15 := by rfl
 
 end Firebolt.C15
